@@ -135,6 +135,7 @@ pub const NAMES: &[&str] = &[
     "probe_budget_exactly_output_len", "probe_same_chunking_as_reference", "probe_different_chunking_than_reference",
     "probe_name_has_escaped_braces", "probe_name_multibyte", "probe_empty_name", "probe_plan_never_fired",
     "fault_field_display_err_fired", "probe_interpolated_variant_under_nontrivial_caller_spec",
+    "probe_width_or_precision_taken_from_another_field", "probe_identifier_shared_with_a_styled_enum",
 ];
 const R_FIXED_UNIT: usize = 0;
 const R_INTERP_TUPLE: usize = 3;
@@ -160,6 +161,8 @@ const P_EMPTY: usize = 25;
 const P_PLAN_NOFIRE: usize = 26;
 const F_FIELD_ERR: usize = 27;
 const P_UNDEFINED_SPEC: usize = 28;
+const P_WIDTH_ARG: usize = 29;
+const P_SHARED_IDENT: usize = 30;
 
 pub struct Failure {
     pub oracle: &'static str,
@@ -239,6 +242,12 @@ pub fn exec(case: &Case, sc: &Script, mut stats: Option<&mut Stats>, keep_log: b
             _ => R_INTERP_NAMED,
         };
         st.hit(k);
+        if v.literal.map_or(false, |l| l.contains("$}") || l.contains("$.")) {
+            st.hit(P_WIDTH_ARG);
+        }
+        if matches!(v.ident, "raw__mode" | "_reserved" | "trailing_" | "snake_case_name" | "Http2" | "Sha256Sum" | "Ipv6Only") && case.desc.contains("serialize_all=None") {
+            st.hit(P_SHARED_IDENT);
+        }
         if let Some(name) = v.fixed {
             if name.contains("{{") || name.contains("}}") {
                 st.hit(P_ESC);
